@@ -676,6 +676,20 @@ class _HandlerIsinstance(ast.NodeTransformer):
     visit_AsyncFunctionDef = visit_FunctionDef
     visit_Lambda = visit_FunctionDef
 
+    def visit_If(self, node):
+        t = node.test
+        frame = None
+        if isinstance(t, ast.Call) and isinstance(t.func, ast.Name) and t.func.id == 'isinstance' and len(t.args) == 2 and not t.keywords and isinstance(t.args[0], ast.Name):
+            nm = t.args[0].id
+            if not any(isinstance(x, ast.Name) and x.id == nm and isinstance(x.ctx, ast.Store) for b in node.body for x in ast.walk(b)):
+                frame = (nm, ast.dump(t.args[1]))
+        node.test = self.visit(node.test)
+        self.stack.append(frame)
+        node.body = [self.visit(b) for b in node.body]
+        self.stack.pop()
+        node.orelse = [self.visit(b) for b in node.orelse]
+        return node
+
     def _known(self, e):
         if not (isinstance(e, ast.Call) and isinstance(e.func, ast.Name) and e.func.id == 'isinstance' and len(e.args) == 2 and not e.keywords and isinstance(e.args[0], ast.Name)):
             return False
